@@ -125,6 +125,8 @@ pub struct AppLog {
     pub last_progress_ns: u64,
     pub capped_tasks: Vec<String>,
     pub events: u64,
+    /// (virtual time, stream, total bytes read so far) after every successful read
+    pub reads_log: Vec<(u64, StreamKey, u64)>,
 }
 
 pub type SharedApp = Arc<Mutex<AppLog>>;
@@ -517,6 +519,8 @@ async fn recv_task(
         let o = a.recvs.get_mut(&key).unwrap();
         o.read = read;
         o.reads += 1;
+        let t = now_ns();
+        a.reads_log.push((t, key, read));
     }
     let mut a = app.lock().unwrap();
     let o = a.recvs.get_mut(&key).unwrap();
@@ -543,6 +547,8 @@ struct ConnEnv {
     peer_latch: Latch,
     /// released when this side observes the end of the connection
     closed: Latch,
+    /// released by the connection driver to make the acceptor task drop its handle
+    stop: Latch,
 }
 
 impl ConnEnv {
@@ -685,7 +691,25 @@ async fn acceptor_task(env: ConnEnv, mut acceptor: StreamAcceptor) {
     }
     let mut accepted: std::collections::BTreeSet<u64> = Default::default();
     loop {
-        match ctx.op("accept", acceptor.accept()).await {
+        let next = {
+            let mut acc = Box::pin(ctx.op("accept", acceptor.accept()));
+            let mut stop = Box::pin(env.stop.wait());
+            core::future::poll_fn(|cx| {
+                if let Poll::Ready(r) = acc.as_mut().poll(cx) {
+                    return Poll::Ready(Some(r));
+                }
+                if stop.as_mut().poll(cx).is_ready() {
+                    return Poll::Ready(None);
+                }
+                Poll::Pending
+            })
+            .await
+        };
+        let Some(next) = next else {
+            env.app.lock().unwrap().pending_ops.remove(&ctx.name);
+            break;
+        };
+        match next {
             Ok(Some(stream)) => {
                 env.app.lock().unwrap().conns.entry((env.conn, env.role)).or_default().accepted_streams += 1;
                 let id = stream.id();
@@ -780,6 +804,8 @@ async fn drive_connection(env: ConnEnv, handle: Handle, acceptor: StreamAcceptor
         CloseSpec::DropHandles => {
             env.latch.wait().await;
             either(env.peer_latch.wait(), env.closed.wait()).await;
+            // the acceptor is an application handle too: make its task drop it
+            env.stop.done();
         }
     }
     env.app.lock().unwrap().conns.entry((env.conn, env.role)).or_default().t_done_ns = Some(now_ns());
@@ -851,7 +877,7 @@ pub struct RunOutput {
 }
 
 macro_rules! build_endpoint {
-    ($builder:expr, $e:expr, $ep:expr, $role:expr, $plan:expr, $handle:expr, $obs:expr, $tls:expr, $sock:expr) => {{
+    ($builder:expr, $e:expr, $ep:expr, $role:expr, $plan:expr, $handle:expr, $obs:expr, $tls:expr, $sock:expr, $reset:literal) => {{
         let e: &EndpointCfg = $e;
         let plan: &Plan = $plan;
         let tls_cfg = TlsCfg {
@@ -879,6 +905,7 @@ macro_rules! build_endpoint {
                 e.flatten_tx,
                 e.byz.clone(),
                 $role == Role::Client,
+                $tls.clone(),
             )))
             .unwrap()
             .with_limits(limits_of(&e.limits))
@@ -891,7 +918,7 @@ macro_rules! build_endpoint {
                 counter: 0,
             })
             .unwrap()
-            .with_stateless_reset_token(SimTokenGen { key: hashn(plan.rand_key, &[0x7e5e7, $ep as u64]) })
+            .with_stateless_reset_token(SimTokenGen::<$reset> { key: hashn(plan.rand_key, &[0x7e5e7, $ep as u64]) })
             .unwrap();
         b
     }};
@@ -909,7 +936,7 @@ fn start_server(
     sock: Arc<Mutex<Option<io::Socket>>>,
 ) -> Server {
     let e = &plan.cfg.server;
-    let b = build_endpoint!(Server::builder(), e, 0u32, Role::Server, plan, handle, obs, tls, sock);
+    let b = build_endpoint!(Server::builder(), e, 0u32, Role::Server, plan, handle, obs, tls, sock, true);
     let b = b.with_endpoint_limits(RetryLimiter { retry: e.retry }).unwrap();
     if e.cc == 1 {
         b.with_congestion_controller(cc::Bbr::default()).unwrap().start().unwrap()
@@ -927,7 +954,7 @@ fn start_client(
     sock: Arc<Mutex<Option<io::Socket>>>,
 ) -> Client {
     let e = &plan.cfg.client;
-    let b = build_endpoint!(Client::builder(), e, 1 + idx, Role::Client, plan, handle, obs, tls, sock);
+    let b = build_endpoint!(Client::builder(), e, 1 + idx, Role::Client, plan, handle, obs, tls, sock, false);
     if e.cc == 1 {
         b.with_congestion_controller(cc::Bbr::default()).unwrap().start().unwrap()
     } else {
@@ -1070,6 +1097,7 @@ fn run_inner(
                         latch: latches[idx as usize].1.clone(),
                         peer_latch: latches[idx as usize].0.clone(),
                         closed: { let l = Latch::default(); l.add(1); l },
+                        stop: { let l = Latch::default(); l.add(1); l },
                     };
                     let (h, a) = connection.split();
                     let name = env.ctx("conn").name;
@@ -1092,6 +1120,7 @@ fn run_inner(
                 latch: latches[i].0.clone(),
                 peer_latch: latches[i].1.clone(),
                 closed: { let l = Latch::default(); l.add(1); l },
+                        stop: { let l = Latch::default(); l.add(1); l },
             };
             let app2 = app.clone();
             let net2 = net.clone();
